@@ -129,8 +129,11 @@ Definition line_string_at_break := line_string_at_gen true.   (* /repo before th
 
 (* the two Less functions of update.go *)
 Definition less_ts (a b : update) : bool := u_ts a <? u_ts b.
+(* updatesSortIndex.Less after /repo fix 47692a5: (index, timestamp, version) *)
 Definition less_index (a b : update) : bool :=
-  if negb (u_index a =? u_index b) then u_index a <? u_index b else u_ts a <? u_ts b.
+  if negb (u_index a =? u_index b) then u_index a <? u_index b
+  else if negb (u_ts a =? u_ts b) then u_ts a <? u_ts b
+  else u_ver a <? u_ver b.
 
 (* ---- consumer: mputil.Group, restricted to what it does with way members ---- *)
 Record way := mkWay { w_id : Z; w_nodes : list wnode; w_updates : list update }.
